@@ -214,6 +214,30 @@ pub fn run(o: &Opts) {
 
 /// returns (comment text, Some(ids or None=all) if it is a suppression / None if it is a plain comment)
 fn gen_comment(rng: &mut Rng, cmt: &str) -> (String, Option<Option<Vec<String>>>) {
+  // id lists of 2-4 ids in random order with uneven spacing around the separators (blanks after the colon but not
+  // after a comma, several blanks, blanks before a comma, a trailing comma): the list is a set, whatever its layout
+  if rng.chance(1, 3) {
+    let pool = ["ra", "rb", "rc", "zz", "aa", "other", "rx"];
+    let n = 2 + rng.below(3);
+    let mut ids: Vec<String> = vec![];
+    while ids.len() < n {
+      let c = rng.pick(&pool).to_string();
+      if !ids.contains(&c) {
+        ids.push(c);
+      }
+    }
+    let mut text = format!("{cmt} ast-grep-ignore:{}", ["", " ", "  ", "\t"][rng.below(4)]);
+    for (i, id) in ids.iter().enumerate() {
+      if i > 0 {
+        text.push_str([",", ", ", " ,", ",  ", " , "][rng.below(5)]);
+      }
+      text.push_str(id);
+    }
+    if rng.chance(1, 6) {
+      text.push(',');
+    }
+    return (text, Some(Some(ids)));
+  }
   match rng.below(8) {
     0 => (format!("{cmt} just a comment"), None),
     1 => (format!("{cmt} ast-grep-ignore"), Some(None)),
